@@ -430,6 +430,21 @@ func runFault(s *session, f faultSpec, sched string) (*faultRun, error) {
 					}
 				}
 			}
+			if f.How == "torsion2" && !isList && strings.HasSuffix(f.Field, "_x") {
+				// an Edwards point given as two scalar fields: adding the point of order 2, (0,-1), negates both coordinates
+				sib := strings.TrimSuffix(f.Field, "_x") + "_y"
+				if yv, err := sim.GetField(m.Wire, sib); err == nil && len(yv) == 1 && len(nv) == 1 {
+					x2 := new(big.Int).Sub(ref.EdP, new(big.Int).SetBytes(nv[0]))
+					y2 := new(big.Int).Sub(ref.EdP, new(big.Int).SetBytes(yv[0]))
+					if enc, err := sim.SetField(m.Wire, f.Field, [][]byte{x2.Bytes()}); err == nil {
+						if enc2, err := sim.SetField(enc, sib, [][]byte{y2.Bytes()}); err == nil {
+							out = enc2
+							fr.applied++
+						}
+					}
+				}
+				changed = false
+			}
 			if changed {
 				if enc, err := sim.SetField(m.Wire, f.Field, nv); err == nil {
 					out = enc
